@@ -523,3 +523,87 @@ class OracleMonitor(Monitor):
                 pe, ve = h_entry(h1, k)
                 if pe is not False:
                     self.oblige(st, 'C18', F.Not(F.Atom(pe)), 'record %r between two present jobs that no longer depend on each other is returned' % k)
+
+
+class MisuseMonitor(Monitor):
+    """C20: at every reachable quiescent state every illegal call on every known job is rejected with an API
+    error and leaves the complete engine state (all fields, exact) and all query results unchanged."""
+    props = ('C20',)
+
+    def bind(self, ex):
+        Monitor.bind(self, ex)
+        self.calls = 0
+        self.seen = set()
+        self.distinct = 0
+
+    def snapshot(self, eng):
+        from .explore import canon_value
+        return (canon_value(eng.cell[0]), frozenset(eng.query_ready_to_run()), frozenset(eng.query_jobs_running()),
+                frozenset(eng.query_ready_for_cleanup()), frozenset(eng.query_failed()), frozenset(eng.query_upstream_failed()))
+
+    def on_quiescent(self, st):
+        from . import engine_api as E, sym
+        ex = self.ex
+        uni = self.uni
+        if not st.dv.startup_done:
+            return
+        eng0 = st.eng
+        # the engine's reaction to a call depends on the engine state only: one check per distinct engine state
+        ekey = ex.canon(st)[:6]
+        if ekey in self.seen:
+            return
+        self.seen.add(ekey)
+        self.distinct += 1
+        ready = eng0.query_ready_to_run()
+        running = eng0.query_jobs_running()
+        cleanup = eng0.query_ready_for_cleanup()
+        calls = [('startup', None)]
+        for j in uni.ids:
+            if j not in ready:
+                calls.append(('run', j))
+            if j not in running:
+                calls.append(('ok', j))
+                calls.append(('fail', j))
+            if j not in cleanup:
+                calls.append(('cleanup', j))
+        base = self.snapshot(eng0)
+        fin0 = st.dv.finished
+        eng = ex.clone_engine(eng0)
+        for kind, j in calls:
+            self.calls += 1
+            rt.CTX.oracle = sym.Oracle(ex.z, st.pc, ())
+            res = None
+            try:
+                if kind == 'startup':
+                    eng.event_startup()
+                elif kind == 'run':
+                    eng.event_now_running(j)
+                elif kind == 'ok':
+                    eng.event_job_finished_success(j, Out(('misuse', j)))
+                elif kind == 'fail':
+                    eng.event_job_finished_failure(j)
+                else:
+                    eng.event_job_cleanup_done(j)
+                res = 'accepted'
+            except E.EngineError as e:
+                res = e.kind
+            except rt.RustPanic as p:
+                res = 'panic: ' + p.msg[:80]
+            finally:
+                rt.CTX.oracle = None
+            bad = False
+            if res != 'APIError':
+                ex.report('C20', 'illegal call %s(%s) was not rejected with an API error: %s' % (kind, j, res), st, detail=('misuse', kind, j))
+                bad = True
+            try:
+                after = self.snapshot(eng)
+                fin1 = bool(eng.is_finished())
+            except rt.RustPanic:
+                after = None
+                fin1 = None
+            if after != base or fin1 != fin0:
+                if not bad:
+                    ex.report('C20', 'rejected illegal call %s(%s) changed the state of the evaluation' % (kind, j), st, detail=('misuse', kind, j))
+                bad = True
+            if bad:
+                eng = ex.clone_engine(eng0)
